@@ -89,6 +89,11 @@ type Scenario struct {
 	// component alone against its simulated back-end (component simulations)
 	Component string `json:"component,omitempty"`
 
+	// Adapter per node: "" = Lightning and the Bitcoin wallet are stubbed at the swap-package
+	// interfaces (tier 1); "lnd" = the real lnd adapter (lnd.Client, PaymentWatcher,
+	// MessageListener, TxWatcher) over the simulated LND (tier 2; implies flavor lnd)
+	Adapter [2]string `json:"adapter,omitempty"`
+
 	// RpcParkRate: per-mille of polling RPC reads that are scheduling points
 	RpcParkRate int `json:"rpc_park_rate,omitempty"`
 }
@@ -104,6 +109,7 @@ type LayoutCfg struct {
 	Change       bool `json:"change"`                   // add a change output
 	Extra        int  `json:"extra"`                    // number of extra unrelated outputs
 	DecoySameAmt bool `json:"decoy_same_amt,omitempty"` // an extra output with the same value (different script)
+	DecoyLast    bool `json:"decoy_last,omitempty"`     // ... placed behind the swap output
 	SpendChange  bool `json:"spend_change,omitempty"`   // wallet later spends its change output
 }
 
